@@ -229,8 +229,8 @@ def features(segs):
     return f
 
 
-def check_path(segs, req, word, emb, acc, opts_list=OPTIONS, skip=0):
-    p = Path(*segs)
+def check_path(segs, req, word, emb, acc, opts_list=OPTIONS, skip=0, path_obj=None):
+    p = Path(*segs) if path_obj is None else path_obj
     f = features(segs)
     # abstract serialiser state graph: state = (previous kind, closed?), transition = (state, joint relation, kind)
     g = acc.extra.setdefault('graph', {})
@@ -339,6 +339,49 @@ def revisit_family(maxlen):
     return out
 
 
+EDITS = ['pop', 'append_tail', 'replace_last', 'insert_lead_in', 'pop_then_append', 'end_moved']
+
+
+def run_edited_parsed(emb, acc):
+    """a closed path as the PARSER returns it (from a string ending in Z: it carries the parser's closed flag),
+    then opened or extended in place through the Path interface; serialising the result must still round
+    trip - a stored 'closed' flag is not a fact about the current segments"""
+    E = EMBEDDINGS[emb]
+    kinds = [('L', None), ('C', 'generic'), ('Q', 'generic')]
+    for n in (2, 3):
+        for ks in itertools.product(kinds, repeat=n):
+            for closing in kinds:
+                word = [(k, 'new' if i == 0 else 'cont', c, 'fresh', None) for i, (k, c) in enumerate(ks)]
+                word.append((closing[0], 'cont', closing[1], 'sub', None))
+                segs, req = build(tuple(word), emb)
+                if segs is None:
+                    continue
+                for use_z in (True, False):
+                    for edit in EDITS:
+                        try:
+                            p = parse_path(Path(*segs).d(use_closed_attrib=use_z))
+                        except Exception:
+                            continue
+                        far = E(-19, 18)
+                        far2 = E(19, -18)
+                        if edit == 'pop':
+                            p.pop()
+                        elif edit == 'append_tail':
+                            p.append(Line(p[-1].end, far))
+                        elif edit == 'replace_last':
+                            p[-1] = Line(p[-1].start, far)
+                        elif edit == 'insert_lead_in':
+                            p.insert(0, Line(far2, p[0].start))
+                        elif edit == 'pop_then_append':
+                            p.pop()
+                            p.append(Line(p[-1].end, far))
+                        elif edit == 'end_moved':
+                            p.end = far
+                        w2 = [list(t) for t in word] + [['edit', edit, 'parsed_with_Z' if use_z else 'parsed_without_Z']]
+                        check_path(list(p), [None] * len(p), w2, emb, acc, OPTIONS, 0, path_obj=p)
+                        acc.seen('edited_parsed_path')
+
+
 def shards(tier, seed):
     tp = tier_params(tier, seed)
     out = []
@@ -356,6 +399,7 @@ def shards(tier, seed):
         out.append({'emb': emb, 'set': 'reflect2', 'first': 0})
         if emb in ('E0', 'E1', 'E3'):
             out += [{'emb': emb, 'set': 'revisit', 'first': k} for k in range(4)]
+            out.append({'emb': emb, 'set': 'edited_parsed', 'first': 0})
     return out
 
 
@@ -371,6 +415,9 @@ def run_shard(desc, tier, seed):
                 for n in (2, 3):
                     word = [(k, 'new', 'generic', 'fresh', None)] + [(k, 'cont', 'reflect2', 'fresh', None)] * (n - 1)
                     run_word(tuple(word), emb, acc, skip=skip)
+        return acc
+    if desc['set'] == 'edited_parsed':
+        run_edited_parsed(emb, acc)
         return acc
     if desc['set'] == 'revisit':
         for idx, word in enumerate(revisit_family(5 if tier == 'quick' else 6)):
@@ -406,7 +453,7 @@ def run_word(word, emb, acc, opts_list=OPTIONS, skip=0):
 
 
 def expected_classes(tier):
-    return ['all_letters_both_cases_and_midpath_M_emitted', 'revisit_family']
+    return ['all_letters_both_cases_and_midpath_M_emitted', 'revisit_family', 'edited_parsed_path']
 
 
 def finalize(acc):
@@ -440,6 +487,10 @@ def space(tier, seed):
 
 def replay(case):
     acc = core.ReplayAcc()
+    if case['word'] and case['word'][-1][0] == 'edit':
+        run_edited_parsed(case['emb'], acc)
+        acc.vlist = [v for v in acc.vlist if v['case']['word'] == case['word'] and v['case']['opt'] == case['opt']]
+        return acc.vlist
     word = tuple(tuple(t) for t in case['word'])
     run_word(word, case['emb'], acc, [case['opt']], case.get('skip', 0))
     return acc.vlist
